@@ -26,6 +26,21 @@ def simulate_histories(cfg, num, depth, seed):
 _STUB_SEQ = __import__("itertools").count()
 
 
+def rs_args_with(args):
+    """The reserved-style configuration with the given options; an option of the reserved set that is given again
+    replaces the reserved value (delta rejects an option given twice)."""
+    base = list(gitskin.RS_ARGS)
+    given = {a for a in args if a.startswith("--")}
+    out, i = [], 0
+    while i < len(base):
+        if base[i] in given and i + 1 < len(base) and not base[i + 1].startswith("--"):
+            i += 2
+            continue
+        out.append(base[i])
+        i += 1
+    return out + list(args)
+
+
 def run_history(hist, args, payload=gitskin.default_payload, skin=None, env=None, cmd=None):
     data, texts = gitskin.concretise(hist, payload=payload, skin=skin)
     if cmd:
@@ -42,10 +57,10 @@ def run_history(hist, args, payload=gitskin.default_payload, skin=None, env=None
             fh.write(data)
         e2 = dict(env or {})
         e2.update({"PATH": binpath + ":/usr/bin:/bin", "STUB_OUT": f})
-        r = core.run_delta(gitskin.RS_ARGS + list(args) + list(cmd), b"", env=e2)
+        r = core.run_delta(rs_args_with(args) + list(cmd), b"", env=e2)
         os.unlink(f)
         return data, texts, r
-    r = core.run_delta(gitskin.RS_ARGS + list(args), data, env=env)
+    r = core.run_delta(rs_args_with(args), data, env=env)
     return data, texts, r
 
 
@@ -131,7 +146,7 @@ class Plan:
     def __init__(self, name, hists, args=(), cfg=None, payload=gitskin.default_payload, skin=None, env=None, cmd=None):
         self.name, self.hists, self.args, self.payload, self.skin, self.env = name, hists, list(args), payload, skin, env
         self.cmd = cmd
-        self.cfg = {"keep": False, "tabs": 8, "colorOnly": False, "buf": 32, "hhFile": True, "rel": False, "wd": False}
+        self.cfg = {"keep": False, "tabs": 8, "colorOnly": False, "buf": 32, "hhFile": True, "rel": False, "wd": False, "commitRaw": False}
         if cfg:
             self.cfg.update(cfg)
 
